@@ -3,12 +3,15 @@ package main
 import (
 	"context"
 	"fmt"
+	"regexp"
 	"strings"
 	"sync"
 
 	"ariga.io/atlas/sql/mysql"
 	"ariga.io/atlas/sql/schema"
 )
+
+var reAddPK = regexp.MustCompile("(?i)ADD PRIMARY KEY \\(([^)]*)\\)")
 
 // c17MyColumns: MySQL / TiDB (no engine to run the down direction on): the reverse of a dropped or modified
 // column re-creates the column EXACTLY as the planner itself defines it when it creates the table it came from
@@ -57,6 +60,42 @@ func c17MyColumns(e *Env, viol func(kind, sig, what, chk string, rep any), mu *s
 							defs[ent[1:1+k]] = strings.TrimSpace(ent[k+2:])
 						}
 					}
+				}
+			}
+			// the primary key replaced by another one: run up and then down, the OLD key is back - the last
+			// ADD PRIMARY KEY of the down direction names the old columns
+			for _, newKey := range [][]string{{"id", "s2"}, {"s2"}, {"n", "id"}} {
+				to := mk()
+				var parts []*schema.Column
+				for _, n := range newKey {
+					c, _ := to.Column(n)
+					parts = append(parts, c)
+				}
+				newPK := schema.NewPrimaryKey(parts...)
+				oldPK := from.PrimaryKey
+				to.SetPrimaryKey(newPK)
+				id := fmt.Sprintf("%s, table charset %q: primary key (id) replaced by %v", d, tableCS, newKey)
+				rep := map[string]any{"case": id}
+				mu.Lock()
+				e.Res.Count("mycol:"+id, true, "mysql-column-reverse:"+d)
+				mu.Unlock()
+				plan, err := pl.PlanChanges(ctx, "p", []schema.Change{&schema.ModifyTable{T: to, Changes: []schema.Change{&schema.ModifyPrimaryKey{From: oldPK, To: newPK, Change: schema.ChangeParts}}}})
+				if err != nil || !plan.Reversible {
+					continue
+				}
+				var down []string
+				for k := len(plan.Changes) - 1; k >= 0; k-- {
+					rs, _ := plan.Changes[k].ReverseStmts()
+					down = append(down, rs...)
+				}
+				last := ""
+				for _, st := range down {
+					for _, m := range reAddPK.FindAllStringSubmatch(st, -1) {
+						last = strings.ReplaceAll(strings.ReplaceAll(m[1], "`", ""), " ", "")
+					}
+				}
+				if last != "id" {
+					viol("failing-input", "reverse-restores-another-primary-key", fmt.Sprintf("%s: the plan is reported reversible; after its down statements [%s] the primary key is (%s), not the original (id)", id, trunc(strings.Join(down, "; "), 300), last), "Props.C17 reverse restores (MySQL primary key)", rep)
 				}
 			}
 			for _, col := range from.Columns {
